@@ -1592,6 +1592,112 @@ def work_redeclare(case):
     return case['id'], probs
 
 
+# ===============================================================================================================
+# Part P: command-line `subp:opt` (step 8) against command-line `opt` (step 4) when they arrive in different commands of the
+# build directory's life.  A subproject value given with -Dsub:opt=V stays V whatever is later said about `opt` - also when V
+# happens to be the value the subproject was inheriting at that moment.  Observed where a user reads it without reconfiguring
+# (`meson configure` listing, intro-buildoptions.json) and after `setup --reconfigure` (get_option in the subproject).
+PIN_OPTS = {
+    # name: (kind, inherited value at setup, another value, the later top-level value)
+    'foo': ('yield-string', 'top', 'other', 'changed'),
+    'cmb': ('yield-combo', 'a', 'b', 'c'),
+    'werror': ('builtin', 'false', 'true', 'true'),
+    'warning_level': ('builtin', '1', '2', '3'),
+}
+
+
+def pin_cases():
+    cases = []
+    for name, (kind, inh, other, later) in PIN_OPTS.items():
+        for pinval in ('inherited', 'other'):
+            for how in ('configure', 'reconfigure', 'same-command-sub-first', 'same-command-top-first'):
+                for then in ('configure', 'reconfigure'):
+                    if how.startswith('same-command') and then == 'reconfigure':
+                        continue
+                    v = inh if pinval == 'inherited' else other
+                    if name == 'werror' and v == later:
+                        later_v = 'false' if v == 'true' else 'true'
+                    else:
+                        later_v = later
+                    cases.append({'id': '%s:%s:%s:%s' % (name, pinval, how, then), 'name': name, 'kind': kind, 'pin': v, 'later': later_v,
+                                  'how': how, 'then': then})
+    return cases
+
+
+def work_pin(case):
+    from verif import mesonproc as mp
+    root = os.path.join(scratch_root(), 'c07p.%d' % os.getpid())
+    shutil.rmtree(root, ignore_errors=True)
+    src, bld = os.path.join(root, 'src'), os.path.join(root, 'b')
+    names = sorted(PIN_OPTS)
+    obsl = "foreach k : [%s]\n  message('VERIF-P|%%s|@0@|@1@|'.format(k, get_option(k)))\nendforeach\n" % ', '.join("'%s'" % n for n in names)
+    mp.write_tree(src, {
+        'meson.build': "project('p', meson_version: '>=1.1')\nsubproject('sub')\n" + obsl % 'top',
+        'meson.options': "option('foo', type: 'string', value: 'top')\noption('cmb', type: 'combo', choices: ['a', 'b', 'c'], value: 'a')\n",
+        'subprojects/sub/meson.build': "project('sub', meson_version: '>=1.1')\n" + obsl % 'sub',
+        'subprojects/sub/meson.options': "option('foo', type: 'string', value: 'subdef', yield: true)\n"
+                                         "option('cmb', type: 'combo', choices: ['a', 'b', 'c'], value: 'c', yield: true)\n"})
+    n, pin, later = case['name'], case['pin'], case['later']
+    probs = []
+    tag = '%s: -Dsub:%s=%s (%s) then -D%s=%s (%s)' % (case['id'], n, pin, case['how'], n, later, case['then'])
+
+    def run(argv):
+        r = mp.run_meson(argv, root)
+        if r.unhandled:
+            probs.append(('C07:pin:unhandled-exception', '%s: `%s` dies with a traceback: %s' % (tag, ' '.join(argv[:2]), r.out[-300:])))
+        elif r.rc != 0:
+            probs.append(('C07:pin:command-fails', '%s: `%s` fails: %s' % (tag, ' '.join(argv), r.out[-300:])))
+        return r
+    r = run(['setup', '--backend=none', bld, src])
+    if r.rc != 0:
+        shutil.rmtree(root, ignore_errors=True)
+        return case['id'], [('C07:INTERNAL', 'pin: initial setup failed: ' + r.out[-300:])]
+    dsub, dtop = '-Dsub:%s=%s' % (n, pin), '-D%s=%s' % (n, later)
+    if case['how'] == 'configure':
+        run(['configure', bld, dsub])
+    elif case['how'] == 'reconfigure':
+        run(['setup', '--reconfigure', bld, src, dsub])
+    if case['how'] == 'same-command-sub-first':
+        run(['configure', bld, dsub, dtop])
+    elif case['how'] == 'same-command-top-first':
+        run(['configure', bld, dtop, dsub])
+    elif case['then'] == 'configure':
+        run(['configure', bld, dtop])
+    else:
+        run(['setup', '--reconfigure', bld, src, dtop])
+    if not probs:
+        # (a) what the build directory says without reconfiguring
+        try:
+            intro = {o['name']: o['value'] for o in json.load(open(os.path.join(bld, 'meson-info', 'intro-buildoptions.json')))}
+        except Exception as e:
+            intro = {'<unreadable>': str(e)}
+
+        def norm(v):
+            return ('true' if v else 'false') if isinstance(v, bool) else str(v)
+        if norm(intro.get(n)) != later:
+            probs.append(('C07:pin:top-value', '%s: intro-buildoptions.json shows %s=%r' % (tag, n, intro.get(n))))
+        if case['kind'] != 'builtin' and norm(intro.get('sub:' + n)) != pin:
+            probs.append(('C07:pin:stored:intro:%s' % case['kind'], '%s: intro-buildoptions.json shows sub:%s=%r, expected %r' % (tag, n, intro.get('sub:' + n), pin)))
+        r = run(['configure', bld])
+        aug, in_aug = {}, False
+        for l in r.out.splitlines():
+            if l.startswith('Currently set option augments'):
+                in_aug = True
+            elif in_aug and len(l.split()) >= 1 and ':' in l.split()[0]:
+                f = l.split()
+                aug[f[0]] = f[1] if len(f) > 1 else ''
+        if case['kind'] == 'builtin' and aug.get('sub:' + n) != pin:
+            probs.append(('C07:pin:stored:configure-listing:builtin', '%s: `meson configure` lists the augments %r, expected sub:%s=%s' % (tag, aug, n, pin)))
+        # (b) after the next reconfigure
+        r = run(['setup', '--reconfigure', bld, src])
+        got = {(m.group(1), m.group(2)): m.group(3) for m in re.finditer(r'Message: VERIF-P\|(\w+)\|(\w+)\|([^|]*)\|', r.out)}
+        if got.get(('sub', n)) != pin or got.get(('top', n)) != later:
+            probs.append(('C07:pin:get_option:%s' % case['kind'], '%s: after setup --reconfigure get_option(%r) gives top %r / sub %r, expected %r / %r'
+                          % (tag, n, got.get(('top', n)), got.get(('sub', n)), later, pin)))
+    shutil.rmtree(root, ignore_errors=True)
+    return case['id'], probs
+
+
 def main():
     ck = Check('C07', 'exploration')
     if ck.args.replay:
@@ -1685,6 +1791,24 @@ def main():
                 nbad += 1
                 ck.violation(key, what, {'tier': 'R', 'case': {'id': cid}})
         ck.part('redeclare', cases=len(rc), violating=nbad)
+    if ck.want('P'):
+        from verif import mesonproc as mp
+        mp.preimport()
+        pc = pin_cases()
+        nbad = 0
+        for cid, probs in pmap(work_pin, pc, chunksize=2):
+            evaluations += 1
+            classes.add('P:' + ':'.join(cid.split(':')[:2]))
+            seen = set()
+            for key, what in probs:
+                if key == 'C07:INTERNAL':
+                    ck.internal(what)
+                if key in seen:
+                    continue
+                seen.add(key)
+                nbad += 1
+                ck.violation(key, what, {'tier': 'P', 'case': {'id': cid}})
+        ck.part('pin', cases=len(pc), violating=nbad)
     ck.assume('reference order transcribed from Builtin-options.md ("The value is overridden in this order"), Machine-files.md '
               '("Command line > Machine file > Build system definitions"), Build-options.md (yield, types), project/subproject yaml docs')
     ck.assume('non-yielding subproject project option: unprefixed opt=value addresses the parent\'s option of that name, never the subproject\'s')
@@ -1713,6 +1837,16 @@ def replay(ck):
         c = [x for x in redeclare_cases() if x['id'] == case['id']][0]
         print('replay redeclare case', c['id'], '| old:', c['old'], '| value:', c['value'], '| new:', c['new'])
         cid, probs = work_redeclare(c)
+        for k, w in probs:
+            print('observed:', k, w)
+        print('still violates' if probs else 'no violation')
+        sys.exit(1 if probs else 0)
+    if tier == 'P':
+        from verif import mesonproc as mp
+        mp.preimport()
+        c = [x for x in pin_cases() if x['id'] == case['id']][0]
+        print('replay pin case', c)
+        cid, probs = work_pin(c)
         for k, w in probs:
             print('observed:', k, w)
         print('still violates' if probs else 'no violation')
